@@ -112,7 +112,7 @@ def c_cfg(name, gen=False, flags=None, invariants=None):
 
 
 # ---------------------------------------------------------------------------------- generators
-G_FLAGS = dict(KeyByCtx=True, CompactByRef=True, Panics=True, StopLast=True, StampSource=True, OneSpawnError=True, FeedOnce=True)
+G_FLAGS = dict(KeyByCtx=True, CompactByRef=True, Panics=False, StopLast=True, StampSource=True, OneSpawnError=True, FeedOnce=True)
 G_COMMON = ("C18_Lifecycle C18_RecvInOrderAndComplete C18_SourceAndCtx C18_AtMostOneSpawnError C18_RefusedNeverRuns "
             "C18_EverySpawnAnswered C18_SendsOnceInOrder")
 G_CONFIGS = {
